@@ -266,6 +266,19 @@ class TaintInterp:
             v = self.ev(st.value, env, pc, fi) if st.value is not None else V("none")
             fr.ret = join(fr.ret, add(v, pc))
             return True
+        if isinstance(st, ast.If) and not st.orelse and len(st.body) == 1 and isinstance(st.body[0], ast.Assign) and isinstance(st.test, ast.Compare) \
+                and len(st.test.ops) == 1 and isinstance(st.test.ops[0], (ast.Lt, ast.LtE, ast.Gt, ast.GtE)) \
+                and isinstance(st.test.left, ast.Name) and isinstance(st.test.comparators[0], ast.Name):
+            # if b < a: a, b = b, a   -- the two names end up in value order
+            sw = st.body[0]
+            l, r = st.test.left.id, st.test.comparators[0].id
+            if len(sw.targets) == 1 and isinstance(sw.targets[0], ast.Tuple) and isinstance(sw.value, ast.Tuple) \
+                    and [norm(x) for x in sw.targets[0].elts] in ([l, r], [r, l]) and [norm(x) for x in sw.value.elts] == [norm(x) for x in reversed(sw.targets[0].elts)] \
+                    and l in env and r in env and l != r:
+                x, y = self._strip_orientation(env[l], env[r])
+                j = join(x, y)
+                env[l], env[r] = j, j
+                return False
         if isinstance(st, ast.If):
             c = self.ev(st.test, env, pc, fi)
             e1, e2 = dict(env), dict(env)
@@ -472,7 +485,29 @@ class TaintInterp:
         return V("const", x=v)
 
     def e_Tuple(self, e, env, pc, fi):
-        return tup(self.ev(x, env, pc, fi) for x in e.elts)
+        r = self._ordered_pair_idiom(e, env, pc, fi)
+        if r is not None:
+            return r
+        items = []
+        for x in e.elts:
+            if isinstance(x, ast.Starred):
+                v = self.ev(x.value, env, pc, fi)
+                if v.kind == "tuple":
+                    items.extend(add(i, v.t) for i in v.items)
+                    continue
+                # unknown length: the tuple is a sequence whose order is that of its parts
+                r2 = None
+                ot = set()
+                for y in e.elts:
+                    w = self.ev(y.value if isinstance(y, ast.Starred) else y, env, pc, fi)
+                    if isinstance(y, ast.Starred) and w.kind == "seq":
+                        r2 = join(r2, add(w.elem, w.t))
+                        ot |= w.ot
+                    else:
+                        r2 = join(r2, w)
+                return seq(r2, frozenset(ot), ("lit", id(e)))
+            items.append(self.ev(x, env, pc, fi))
+        return tup(items)
 
     def e_List(self, e, env, pc, fi):
         r = None
@@ -551,7 +586,44 @@ class TaintInterp:
                 t |= tt(v)
         return sc(t)
 
+    @staticmethod
+    def _strip_orientation(x: V, y: V):
+        """two endpoints of one edge put into value order: what they shared only because of the edge's stored orientation
+        no longer applies"""
+        common = frozenset(t for t in (x.t & y.t) if t[0] == ORDER and "orientation" in t[1])
+        if not common:
+            return x, y
+        return (V(x.kind, x.t - common, x.elem, x.ot, x.oid, x.items, x.x), V(y.kind, y.t - common, y.elem, y.ot, y.oid, y.items, y.x))
+
+    def _ordered_pair_idiom(self, e, env, pc, fi):
+        """(b, a) if b < a else (a, b)   /   (min(a, b), max(a, b)): the pair in value order"""
+        if isinstance(e, ast.IfExp) and isinstance(e.test, ast.Compare) and len(e.test.ops) == 1 and isinstance(e.test.ops[0], (ast.Lt, ast.LtE, ast.Gt, ast.GtE)) \
+                and isinstance(e.test.left, ast.Name) and isinstance(e.test.comparators[0], ast.Name) \
+                and isinstance(e.body, ast.Tuple) and isinstance(e.orelse, ast.Tuple) and len(e.body.elts) == 2 and len(e.orelse.elts) == 2:
+            l, r = e.test.left.id, e.test.comparators[0].id
+            b = [x.id if isinstance(x, ast.Name) else None for x in e.body.elts]
+            o = [x.id if isinstance(x, ast.Name) else None for x in e.orelse.elts]
+            lt = isinstance(e.test.ops[0], (ast.Lt, ast.LtE))
+            asc = (b == [l, r] and o == [r, l]) if lt else (b == [r, l] and o == [l, r])
+            desc = (b == [r, l] and o == [l, r]) if lt else (b == [l, r] and o == [r, l])
+            if (asc or desc) and l != r and l in env and r in env:
+                x, y = self._strip_orientation(env[l], env[r])
+                j = join(x, y)
+                return tup([j, j])
+        if isinstance(e, ast.Tuple) and len(e.elts) == 2 and all(isinstance(x, ast.Call) and isinstance(x.func, ast.Name) and x.func.id in ("min", "max") and len(x.args) == 2
+                                                                  and not x.keywords and all(isinstance(a, ast.Name) for a in x.args) for x in e.elts):
+            f0, f1 = e.elts[0].func.id, e.elts[1].func.id
+            n0, n1 = [a.id for a in e.elts[0].args], [a.id for a in e.elts[1].args]
+            if {f0, f1} == {"min", "max"} and set(n0) == set(n1) and len(set(n0)) == 2 and all(n in env for n in n0):
+                x, y = self._strip_orientation(env[n0[0]], env[n0[1]])
+                j = join(x, y)
+                return tup([j, j])
+        return None
+
     def e_IfExp(self, e, env, pc, fi):
+        r = self._ordered_pair_idiom(e, env, pc, fi)
+        if r is not None:
+            return r
         c = self.ev(e.test, env, pc, fi)
         return add(join(self.ev(e.body, env, pc, fi), self.ev(e.orelse, env, pc, fi)), size_t(c))
 
